@@ -400,6 +400,10 @@ func (g *genPkg) genFunc(fi *FuncInfo, specNames map[string]bool) error {
 		c.GoName = g.fresh(base + "_ens")
 		g.emitBoolFunc(c.GoName, fi.TParams, post, c.Expr, c.Line, "ensures")
 	}
+	if fc.LockOf != nil {
+		fc.LockOf.GoName = g.fresh(base + "_lockof")
+		fmt.Fprintf(&g.buf, "func %s%s(%s) any { return %s }\n", fc.LockOf.GoName, fi.TParams, pre, rewriteExpr(fc.LockOf.Expr))
+	}
 	for _, c := range fc.PanicsIf {
 		c.GoName = g.fresh(base + "_panics")
 		g.emitBoolFunc(c.GoName, fi.TParams, pre, c.Expr, c.Line, "panics_if")
@@ -490,6 +494,9 @@ func (g *genPkg) genFunc(fi *FuncInfo, specNames map[string]bool) error {
 			}
 			if known[n] || strings.HasPrefix(n, "gc") {
 				continue
+			}
+			if strings.Contains(","+strings.Trim(strings.ReplaceAll(fi.TArgs, " ", ""), "[]")+",", ","+n+",") {
+				continue // a type parameter
 			}
 			if n == "rangeindex" {
 				decl = append(decl, "rangeindex int")
